@@ -16,7 +16,9 @@ DRIVER = "drvcorr"
 RULE = ("correspondence (stage-wise, exact inputs): the real intermediate arrays of process_frame_fast / _full are captured "
         "by wrapping the stage functions; log-scaled buffers vs log of the model's exact argument; correlation maps vs the "
         "model's exact direct circular sum (2^-16 relative); evaluation of the real maps by the model (centre exact, height "
-        "exact, refined 1e-4 px, elevation 1e-4 relative); wiring between the stages; oracle: independent float64 brute-force "
+        "exact, refined 1e-4 px, elevation 1e-4 relative); wiring between the stages; end to end: the composed model functions processFrameFast / processFrameFull "
+        "(the ones the pipeline theorems of C04 are about) on integer-valued frames with the float32 logarithm as a table vs the "
+        "real process_frame_fast / _full (centre exact, height 2e-5 relative, refined 5e-3 px); oracle: independent float64 brute-force "
         "of the documented definitions (no FFT) on random frames / patterns / peaks inside, on the border and outside, odd "
         "shapes, buffer counts, upsample off. Non-trivial: a peak whose maximum lies within 2 px of the window border or a "
         "window partly outside the frame (distinct = case hashes).")
@@ -141,6 +143,77 @@ def corr(ctx, drv):
             done += len(blk["peaks"])
         ctx.corr_case("full_stages", p, msgs[:5], nontrivial=border)
         ctx.count("stages_" + kind)
+    for k in range(16 if thorough else 6):
+        composed(ctx, drv, rng, k)
+
+
+def composed(ctx, drv, rng, k):
+    """end to end: Model.processFrameFast / processFrameFull (the composed definitions the pipeline theorems are about)
+    vs the real process_frame_fast / _full on integer-valued frames; the logarithm is a table of the float32 logs"""
+    kinds = ("circular", "radial_gradient", "background_subtraction", "user")
+    kind = kinds[k % len(kinds)]
+    c = 2 + (k % 2)
+    radius = float(np.round(rng.uniform(1.2, c - 0.3), 2))
+    pattern = impl.make_pattern(kind, radius, search=c, radius_outer=min(c, radius * 1.4) if kind == "background_subtraction" else None,
+                                user_shape=(2 * c - 1, 2 * c - 1) if kind == "user" else None)
+    fy, fx = int(rng.integers(6, 11)), int(rng.integers(6, 11))
+    frame = rng.poisson(4, (fy, fx)).astype(np.float32)
+    n = int(rng.integers(1, 4))
+    peaks = np.stack([rng.integers(-c, fy + c, n), rng.integers(-c, fx + c, n)], axis=1).astype(np.int64)
+    for q in peaks[:2]:   # a bright antialiasing-free blob near the first peaks: a clear unique maximum
+        yy, xx = np.mgrid[0:fy, 0:fx]
+        frame += (((yy - q[0] - int(rng.integers(-1, 2))) ** 2 + (xx - q[1] - int(rng.integers(-1, 2))) ** 2) <= radius ** 2) * float(rng.integers(40, 90))
+    b = int(rng.integers(1, n + 2))
+    top = int(frame.max() - min(frame.min(), 0) + 2)
+    table = [0.0] + [float(np.log(np.float32(v))) for v in range(1, top + 1)]
+    p = {"pattern": kind, "radius": radius, "c": c, "frame": frame, "peaks": peaks, "b": b}
+    for which, runner in (("fast", impl.run_fast), ("full", impl.run_full)):
+        msgs = []
+        mshape = (2 * c, 2 * c) if which == "fast" else (fy, fx)
+        mask = np.asarray(pattern.get_mask(mshape), dtype=np.float64)
+        line = (f"frame {which} {fy} {fx} {c} {b} {n} {len(table)} " + " ".join(str(int(v)) for v in frame.ravel()) + " "
+                + " ".join(rat(float(v)) for v in mask.ravel()) + " " + " ".join(str(int(v)) for v in peaks.ravel()) + " "
+                + " ".join(rat(v) for v in table))
+        mo = drv.ask(line)
+        try:
+            cen, ref, hgt, elv = runner(frame, pattern, peaks, b=b)
+        except Exception as e:
+            ctx.corr_case("composed_" + which, p, [f"process_frame_{which} raised {type(e).__name__}: {e}; model: {mo[:60]}"])
+            continue
+        if mo == "bad-op":
+            ctx.corr_case("composed_" + which, p, ["model driver rejected the operation"])
+            continue
+        scale = max(1.0, float(np.abs(mask).sum()) * float(np.log(top)))
+        for i, rec in enumerate(mo.split(" ; ")):
+            f = rec.split()
+            mc = [int(f[0]), int(f[1])]
+            mh = float(Fraction(f[2]))
+            if abs(float(hgt[i]) - mh) > 2e-5 * scale:
+                msgs.append(f"{which} peak {peaks[i].tolist()}: height impl {float(hgt[i])!r} composed model {mh!r}")
+            elif cen[i].tolist() != mc:
+                # tie guard: the statement asks for *a* position attaining the maximum; float round-off may break an exact
+                # tie of the model differently.  Accept iff the model's map at the implementation's centre is within
+                # tolerance of the model's maximum (and the centre is inside the window).
+                win = np.array(frl(drv.ask(
+                    f"framecorr {which} {fy} {fx} {c} {len(table)} " + " ".join(str(int(v)) for v in frame.ravel()) + " "
+                    + " ".join(rat(float(v)) for v in mask.ravel()) + f" {int(peaks[i][0])} {int(peaks[i][1])} "
+                    + " ".join(rat(v) for v in table)))).reshape(2 * c, 2 * c)
+                ry_, rx_ = int(cen[i][0] - peaks[i][0] + c), int(cen[i][1] - peaks[i][1] + c)
+                ok = 0 <= ry_ < 2 * c and 0 <= rx_ < 2 * c and win[ry_, rx_] >= win.max() - 2e-5 * scale
+                if ok:
+                    ctx.count("composed_tie_accepted")
+                else:
+                    msgs.append(f"{which} peak {peaks[i].tolist()}: centre impl {cen[i].tolist()} composed model {mc} "
+                                f"(model map there {win[ry_, rx_] if 0 <= ry_ < 2 * c and 0 <= rx_ < 2 * c else None}, max {win.max()})")
+            elif abs(float(ref[i][0]) - float(Fraction(f[3]))) > 5e-3 or abs(float(ref[i][1]) - float(Fraction(f[4]))) > 5e-3:
+                msgs.append(f"{which} peak {peaks[i].tolist()}: refined impl {ref[i].tolist()} composed model "
+                            f"{[float(Fraction(f[3])), float(Fraction(f[4]))]}")
+            elif f[5] != "inf" and abs(float(elv[i]) - float(Fraction(f[5])) ** 0.5) > 2e-4 * scale:
+                msgs.append(f"{which} peak {peaks[i].tolist()}: elevation impl {float(elv[i])!r} composed model "
+                            f"{float(Fraction(f[5])) ** 0.5!r}")
+        border = bool(np.any(peaks - c < 0) or np.any(peaks[:, 0] + c > fy) or np.any(peaks[:, 1] + c > fx))
+        ctx.corr_case("composed_" + which, p, msgs[:4], nontrivial=border)
+    ctx.count("composed")
 
 
 def run_case(kind, p):
